@@ -529,6 +529,14 @@ func GenCase(prop string, seed uint64, thorough bool) *Case {
 		return genComponent(prop, seed, g, thorough)
 	case "C05", "C10":
 		return genConc(prop, seed, g, thorough)
+	case "C04":
+		if r.p(0.2) {
+			return genConcCrash(seed, g)
+		}
+	case "C08":
+		if r.p(0.25) {
+			return genConcFault(seed, g)
+		}
 	case "C09":
 		if r.p(0.4) {
 			// concurrent writers under injected faults: everyone gets an answer
